@@ -295,7 +295,7 @@ def run(ctx):
 
 
 MANIFEST_ENTRY = {
-    "technique": "static analysis: syn inspection of the quote! templates and iterator chains of create_locales_enum (table completeness/order, inverse pairing of as_str/from_str, strict fallback), and of the run-time decoding helpers",
+    "technique": "static analysis: syn inspection of the quote! templates and iterator chains of create_locales_enum (table completeness/order, inverse pairing of as_str/from_str, strict fallback), MIR return-value summaries (py/mirsum.py) of every ScopedLocale forwarder",
     "level_text": "Structural: the generated enum exists only as token templates; the rule extracts, on each run, where every per-locale table comes from and how its arms pair identifier and name, and requires the round-trip shape (inverse arms, strict fallback, as_str-based serde/Display). This holds for every configured locale set; no macro expansion is run.",
     "level_note": "Trusted: quote!/syn, icu locale!(), leptos-use FromToStringCodec. Not decided: ICU parsing of a concrete name, CLDR direction data.",
 }
